@@ -276,6 +276,21 @@ func (e *Engine) buildScript(decls, facts []string, goal string, negate bool) st
 			b.WriteString(d + "\n")
 		}
 	}
+	// global axioms (assumptions of the contract library) are included when every spec
+	// function they mention is already part of the query
+	var globalAx []string
+	for _, ax := range e.cs.Axioms {
+		t := e.cevalBool(ax.E, &Env{vars: map[string]Value{}, bound: map[string]string{}})
+		ok := true
+		for _, id := range identRe.FindAllString(t, -1) {
+			if _, isSpec := e.cs.Specs[id]; isSpec && !needSpecs[id] {
+				ok = false
+			}
+		}
+		if ok {
+			globalAx = append(globalAx, "(assert "+t+")\n")
+		}
+	}
 	var specText strings.Builder
 	// declarations first, then definitions/axioms (axioms may mention any spec function)
 	for _, id := range specOrder {
@@ -283,6 +298,9 @@ func (e *Engine) buildScript(decls, facts []string, goal string, negate bool) st
 	}
 	for _, id := range specOrder {
 		specText.WriteString(e.specAxiomsSMT(id))
+	}
+	for _, ax := range globalAx {
+		specText.WriteString(ax)
 	}
 	if len(needLits) > 0 || strings.Contains(body, "gs.") || strings.Contains(body, " Str") || strings.Contains(specText.String(), "gs.") || strings.Contains(specText.String(), " Str") {
 		needStr = true
@@ -563,6 +581,13 @@ func (e *Engine) VerifyFunc(key string) {
 		st.regs[fv] = PtrV{Cell: key, IsNil: "false"}
 		st.named[fv.Name()] = key
 		st.entryVals[fv.Name()] = st.cells[key]
+	}
+	for _, p := range fn.Params {
+		if pt, ok := p.Type().Underlying().(*types.Pointer); ok && isWaitGroup(pt.Elem()) {
+			w := st.freshConst("wg", SInt)
+			st.assume(app("<=", "0", w))
+			st.ghost["wg"] = Sc{w, SInt}
+		}
 	}
 	st.oldHeaps = map[string]string{}
 	// materialise heaps mentioned lazily: entry heap symbols are created on first use
